@@ -106,6 +106,21 @@ PROPS = {
         "assumptions": COMMON_ASSUME + ["unicode/utf8.Valid / RuneStart hand-modelled (Charset.utf8Valid)"],
         "trusted_base": ["FromPlain/latin/ascii hand-modelled; boms and textChars regenerated; tie: cs plain ops exhaustive over a byte-class alphabet"],
     },
+    "C13": {
+        "slices": ["C13"],
+        "relevant_diff": lambda part, op: part.startswith("DIFF det:NdJSON") or part.startswith("DIFF dropLastLine") or part.startswith("DIFF jparse"),
+        "assumptions": COMMON_ASSUME + ["encoding/csv is external: CSV/TSV clauses are checked by oracle on quote-free tables only"],
+        "trusted_base": ["NdJSON, dropLastLine, scanLine hand-modelled; encoding/csv not modelled; tie: lines/dll ops at every limit from the end of line 2"],
+        "partial": ["csv_forward / csv_converse: not proved (encoding/csv is external code); oracle-checked on generated quote-free tables"],
+    },
+    "C12": {
+        "slices": ["C12"],
+        "relevant_diff": lambda part, op: part.startswith("DIFF cs-") or part.startswith("DIFF meta") or part.startswith("DIFF xmlenc"),
+        "assumptions": COMMON_ASSUME + ["x/net/html tokenizer and encoding/xml.RawToken are external: their output is an input of the model",
+                                        "labels are token characters other than '&' (HTML character references are decoded by the tokenizer; DESIGN.md §9)"],
+        "trusted_base": ["fromHTML prescan, fromMetaElement, xmlEncoding, FromBOM hand-modelled; tie: cs html/xml ops fed with the real token stream, meta/xmlenc ops on raw strings, decl ops through Detect"],
+        "partial": ["the byte -> token step (x/net/html, encoding/xml) is a parameter of the theorems"],
+    },
     "C07": {
         "slices": ["tree", "C07", "corpus"],
         "relevant_diff": dets_only("Text"),
